@@ -650,7 +650,7 @@ func (sc *SidecarScope) InboundConnectionPoolForPort(port int) *networking.Conne
 	}
 
 	for _, in := range sc.Sidecar.Ingress {
-		if int(in.Port.Number) == port {
+		if int(in.GetPort().GetNumber()) == port {
 			if in.GetConnectionPool() != nil {
 				return in.ConnectionPool
 			}
